@@ -107,10 +107,40 @@ Theorem C08_valid_shape_partial : forall t : item,
 Proof. exact valid_shape_partial. Qed.
 Print Assumptions C08_valid_shape_partial.
 
-(* the full structural statement adds: no $anchor is declared twice (checked on every generated
-   schema by the correspondence run; not proved) *)
-Definition C08_valid_shape_statement : Prop := forall t : item,
-  NoDup (ids_of t) -> build_raises t = false -> valid_2020_12_shape (build t) = true.
+(* ---- VALID (structure), full: additionally no $anchor is declared twice.  [wf8 e t] (Proofs/JsonTypeP.v):
+   among the children of every non-repeated group a REDEFINES names an earlier sibling that is not itself
+   a redefiner, is no longer than it, and elementary OCCURS items are not union members (C01's [unions_ok]);
+   no REDEFINES inside a repeated group (there the generator raises); OCCURS DEPENDING ON anywhere. *)
+Theorem C08_valid_shape : forall (e : env) (t : item),
+  NoDup (ids_of t) -> wf8 e t = true -> valid_2020_12_shape (build t) = true.
+Proof. exact valid_shape_full. Qed.
+Print Assumptions C08_valid_shape.
+
+Theorem C08_anchors_distinct : forall (e : env) (t : item),
+  NoDup (ids_of t) -> wf8 e t = true -> NoDup (anchors_of (build t)).
+Proof. exact anchors_distinct. Qed.
+Print Assumptions C08_anchors_distinct.
+
+(* a well-formed description is one the generator does not refuse *)
+Theorem C08_wf_not_refused : forall (e : env) (t : item), wf8 e t = true -> build_raises t = false.
+Proof. intros e. exact (proj1 (wf8_not_raises e)). Qed.
+Print Assumptions C08_wf_not_refused.
+
+(* ---- LOADABLE, REFERENCES BOUND: the model of SchemaMaker.from_json (Model/JsonType.v [load]: name_cache keyed
+   by $anchor else title, $ref bound at once or deferred, maxItemsDependsOn bound at once or ValueError) run on
+   the generated schema of a well-formed description returns, and EVERY reference site ([site_keys]: each $ref
+   and each maxItemsDependsOn, in document order) is bound to an object whose $anchor is the name referred to -
+   with C08_anchors_distinct: to THE sub-schema bearing that name.  [filler i] says item i is a FILLER (its
+   title is not its name).  [odo_ok [] t] (Spec/SchemaTruth.v): every DEPENDING ON names a counter declared
+   earlier in the description, a counter being an elementary item without OCCURS outside every REDEFINES union;
+   a DEPENDING ON inside a redefining item must name a counter declared earlier inside that item (conservative:
+   COBOL allows no OCCURS DEPENDING ON under REDEFINES at all). *)
+Theorem C08_loadable : forall (filler : id -> bool) (e : env) (t : item),
+  NoDup (ids_of t) -> wf8 e t = true -> odo_ok [] t = true ->
+  exists l, load filler (build t) = Ok l /\ map fst l = site_keys (build t)
+            /\ forall k d, In (k, d) l -> snd d = Some k.
+Proof. exact load_build. Qed.
+Print Assumptions C08_loadable.
 
 (* ---- non-vacuity ---- *)
 (* S9(3)V99 COMP-3, written out: string / packed-decimal / decimal / 3 bytes; 12 34 5D -> a Decimal *)
@@ -140,5 +170,11 @@ Proof.
   repeat split; try (vm_compute; reflexivity).
   intros x Hx. vm_compute in Hx. destruct Hx as [Hx|[]]. subst x. vm_compute. auto.
 Qed.
+Example C08_example_tree_wf :
+  wf8 (fun _ => 0%nat) example_tree = true /\ odo_ok [] example_tree = true
+  /\ site_keys (build example_tree) = [KName 3; KName 4; KName 2]
+  /\ load (fun _ => false) (build example_tree)
+     = Ok [(KName 3, (CAtomic, Some (KName 3))); (KName 4, (CAtomic, Some (KName 4))); (KName 2, (CAtomic, Some (KName 2)))].
+Proof. vm_compute. repeat split; reflexivity. Qed.
 Example C08_example_tree_nodup : NoDup (ids_of example_tree).
 Proof. vm_compute. repeat constructor; cbn; intuition discriminate. Qed.
